@@ -345,6 +345,38 @@ static void case_table(Rng& rng, uint64_t index)
 			judge("no-evaluation-outside-global-extrema", std::max(std::max(gmin - v, v - gmax), 0.0), K_VAL * EPS * S, [&] { return J().d("prefactor", P).d("x", q).d("value", v).d("Global_Minimum", gmin).d("Global_Maximum", gmax); });
 		}
 	}
+	// ---------------- Integrate with prefactors at the ends of the format: as large (small) as the table allows with P*f and P*integral still normal
+	// numbers.  The integral has to scale like every other output (seeded change C08-r6m3 multiplied the cubic coefficients, ~ f/h^3, by the
+	// prefactor before the powers of the small distances: inf - inf).  Judged in long double against P x the unit-prefactor integral.
+	{
+		double amax = 0;
+		for(double y : T.Y)
+			amax = std::max(amax, std::fabs(y));
+		double span = std::max(1.0, 3 * (T.X[N - 1] - T.X[0]));
+		if(amax > 0 && std::isfinite(amax * span))
+			for(int m = 0; m < 4; m++)
+			{
+				double le = (m % 2 == 0) ? std::floor(std::log2(1e300 / (amax * span))) : std::ceil(std::log2(1e-280 / amax));
+				if(!(std::fabs(le) < 1020))
+					continue;
+				double f = rng.sign() * std::ldexp(1.0, (int) le);
+				if(!std::isfinite(f) || f == 0)
+					continue;
+				double x1 = rng.uni(T.X[0], T.X[N - 1]), x2 = rng.coin(0.2) ? T.X[rng.irange(0, N - 1)] : rng.uni(T.X[0], T.X[N - 1]);
+				if(x1 == x2)
+					continue;
+				V.Set_Prefactor(f);
+				P			 = f;
+				double got	 = V.Integrate(x1, x2);
+				double unit	 = U.Integrate(x1, x2);
+				PieceSum ref = reference_integral(T, U, 1.0, std::min(x1, x2), std::max(x1, x2));
+				// (a result that is itself a subnormal number carries an absolute error of the subnormal spacing)
+				ld tol		 = 2 * (ld) K_VAL * EPS * (ld) ref.tol_scale + 4 * (ld) EPS * fabsl((ld) unit) + 8 * 4.9406564584124654e-324L / fabsl((ld) f);
+				ld err		 = std::isfinite(got) ? fabsl((ld) got / (ld) f - (ld) unit) : (ld) INFINITY;
+				judge("integrate-scales-with-extreme-prefactor", (double) err, (double) tol, [&] { return J().d("x1", x1).d("x2", x2).d("prefactor", f).d("got", got).d("unit_prefactor_result", unit); });
+			}
+		R.Set_Prefactor(P);
+	}
 	if(index % 499 == 0)
 		sample(J().d("final_prefactor", P));
 }
